@@ -14,3 +14,11 @@ Definition run_ok (enc : N -> N) (r : N * N * N) : bool :=
   (s <=? e) && (seg s =? seg e) && (enc s =? c) && (enc e =? c).
 
 Definition canon_nan (x : N) : N := if f32_is_nan x then f32_canon_nan else x.
+
+(* bfloat16 keeps the payload of a NaN (code = bits>>16 | 0x40), so inside a NaN segment the encoder is
+   neither constant nor monotone (0x7FBF.... -> 0x7FFF, 0x7FC0.... -> 0x7FC0).  There it depends on the
+   upper 16 bits only, so a run in a NaN segment additionally has to stay inside one 65536-block;
+   every run the real encoder produces does (adjacent blocks always get different codes). *)
+Definition run_ok_bf16 (r : N * N * N) : bool :=
+  let '(s, e, c) := r in
+  run_ok bf16_enc r && (N.even (seg s) || (s / 65536 =? e / 65536)).
